@@ -124,6 +124,8 @@ def rule_jacobi_direct_domain(ctx, rule='R02.15'):
         ifs = _direct_ifs(pl.inner_node['inner'][-1])
         anchor(len(ifs) == 1, 'the guarded direct term of %s (found %d)' % (fname, len(ifs)))
         cond = ifs[0]['inner'][0]
+        # `if (...) continue;` statements of the two loop bodies exclude pairs as well (the pair-loop engine's reading)
+        skips = D._guards(pl.outer_node['inner'][-1]) + D._guards(pl.inner_node['inner'][-1])
         vo, io, co = D._header(pl.outer_node)
         vi, ii, ci = D._header(pl.inner_node)
         L = {k: v for k, v in lets.items() if k not in (vo, vi)}
@@ -141,7 +143,7 @@ def rule_jacobi_direct_domain(ctx, rule='R02.15'):
                         while D.ieval(co, e, L):
                             e[vi] = D.ieval(ii, e, L)
                             while D.ieval(ci, e, L):
-                                if D.ieval(cond, e, L):
+                                if D.ieval(cond, e, L) and not any(D.ieval(g, e, L) for g in skips):
                                     got.append(frozenset((e[vo], e[vi])))
                                 e[vi] += 1
                                 if len(got) > 1000:
